@@ -391,6 +391,10 @@ func init() {
 			ex.draws[metaAt+1].T = ex.ts.Const(64, arg)
 			return ex.ts.Bool(crashed)
 		},
+		"FsOwner": func(ex *Exec, fn *ssa.Function, args []Value, caller *Frame) Value {
+			ex.fs().owner = ex.labelArg(args[1])
+			return nil
+		},
 		"TrackFootprint": func(ex *Exec, fn *ssa.Function, args []Value, caller *Frame) Value {
 			ex.trackFoot = args[1].(*Term).IsTrue()
 			if ex.trackFoot {
